@@ -38,9 +38,15 @@ def gen_link(rng):
         if rng.random() < 0.3:
             chain.append(["scale"])
     init = rng.randint(0, 3)
+    # the consumer may declare its own (later) time in the requested metadata; the clamp of the delay adapters is the
+    # *source's* start all the same
+    in_time = None if rng.random() < 0.5 else init + rng.randint(0, 4)
     t_pub = init
-    t_req = init
+    t_req = init if in_time is None else in_time
     events = [["push", init]]
+    if in_time is not None and in_time > init:
+        t_pub = in_time + rng.randint(0, 2)
+        events.append(["push", t_pub])
     for _ in range(rng.randint(4, 25)):
         if rng.random() < 0.5:
             t_pub += rng.randint(1, 4)
@@ -48,7 +54,7 @@ def gen_link(rng):
         else:
             t_req += rng.choice([0, 1, 1, 2, 3, 5])
             events.append(["pull", t_req])
-    return {"chain": chain, "init": init, "events": events}
+    return {"chain": chain, "init": init, "in_time": in_time, "events": events}
 
 
 def mk(a):
@@ -64,7 +70,8 @@ def mk(a):
 def run_link(case):
     init = case["init"]
     out = fm.Output(name="out", info=fm.Info(time=T(init * HOUR), grid=fm.NoGrid(), units=""))
-    inp = fm.Input(name="in", info=fm.Info(time=None, grid=None, units=None))
+    in_time = case.get("in_time")
+    inp = fm.Input(name="in", info=fm.Info(time=None if in_time is None else T(in_time * HOUR), grid=None, units=None))
     cur = out
     for a in case["chain"]:
         cur = cur >> mk(a)
